@@ -216,7 +216,8 @@ func splitFrames(b []byte) (frames [][]byte, rest []byte, err error) {
 // ---- cases -----------------------------------------------------------------------------------
 
 type Action struct {
-	K        string `json:"k"`                  // send | burst | cut | reset | down | up
+	K        string `json:"k"`                  // send | burst | cut | reset | down | up | idle
+	Ms       int    `json:"ms,omitempty"`       // idle: nothing is sent for this many milliseconds
 	Size     int    `json:"size,omitempty"`     // filler bytes of the pack (send, burst)
 	Seed     uint64 `json:"seed,omitempty"`     // pack content
 	Override bool   `json:"override,omitempty"` // per-send license
@@ -227,6 +228,9 @@ type Action struct {
 
 type Case struct {
 	Actions []Action `json:"actions"`
+	// TimeoutMs: the client's write timeout (exported field Timeout); 0 = 5 s. Histories with an "idle" action use a
+	// short one so that the connection can grow older than the timeout within the case.
+	TimeoutMs int `json:"timeout_ms,omitempty"`
 }
 
 type sent struct {
@@ -337,7 +341,11 @@ func run(c Case) *pbt.Result {
 	defer pr.shutdown()
 	cl := oneway.NewForVerif(oneway.WithServers([]string{pr.addr}), oneway.WithLicense(clientLicense), oneway.WithPcode(77))
 	cl.Timeout = 5 * time.Second
+	if c.TimeoutMs > 0 {
+		cl.Timeout = time.Duration(c.TimeoutMs) * time.Millisecond
+	}
 	defer cl.Close()
+	idles := 0
 	r := &runner{pr: pr, cl: cl, byFrame: map[string]int{}, guaranteed: map[int]bool{}, listening: true}
 
 	for ai, a := range c.Actions {
@@ -456,6 +464,12 @@ func run(c Case) *pbt.Result {
 			r.listening = false
 			r.faulted, r.errSeen, r.attempts = true, false, 0
 			r.faults++
+		case "idle":
+			// a quiet period; the connection stays healthy, however old it gets
+			time.Sleep(time.Duration(a.Ms) * time.Millisecond)
+			if !r.faulted && pr.nconns() > 0 {
+				idles++
+			}
 		case "up":
 			if r.listening {
 				continue
@@ -514,7 +528,7 @@ func run(c Case) *pbt.Result {
 			return pbt.Fail("send id %d returned nil on a healthy connection but its frame is in no connection's stream", r.all[i].id)
 		}
 	}
-	classes := []string{fmt.Sprintf("faults=%d", min(r.faults, 3)), fmt.Sprintf("recovered=%d", min(r.deliveredAfterFault, 3)), fmt.Sprintf("bursts=%d", min(r.bursts, 2)), fmt.Sprintf("connections=%d", min(pr.nconns(), 4))}
+	classes := []string{fmt.Sprintf("idle-periods-on-a-healthy-connection=%d", min(idles, 2)), fmt.Sprintf("faults=%d", min(r.faults, 3)), fmt.Sprintf("recovered=%d", min(r.deliveredAfterFault, 3)), fmt.Sprintf("bursts=%d", min(r.bursts, 2)), fmt.Sprintf("connections=%d", min(pr.nconns(), 4))}
 	return &pbt.Result{NT: r.deliveredAfterFault >= 1 || r.bursts >= 1, Classes: classes}
 }
 
@@ -557,10 +571,27 @@ func drawActions(t *rapid.T, big bool) []Action {
 
 var specDirect = pbt.Register(pbt.Spec[Case]{
 	Prop: "C06", Name: "direct-mode-histories",
-	Rule:  "histories on a fresh one-way client in direct mode against a harness-owned loopback peer: send (packs of 6 types, 30 B..2.5 MB so that frames exceed the 2 MiB write buffer in the thorough tier, with/without per-send license), burst (2-8 goroutines x 1-6 concurrent sends), peer faults: cut after n bytes of the next frame (mid-header, mid-payload), cut between frames, reset, listener down (k failed connects) / up; oracle = every connection's stream is a concatenation of whole frames (a partial tail only where the peer cut), every frame equals the reference frame of exactly one send (pack's project code, hash of the license in force, exact length), none twice, per-sender order kept, every send that returned nil on a healthy connection is received, from the first reported error on the client recovers within three sends once the listener is up and the first nil send arrives on a new connection; non-trivial = a frame delivered after a fault, or a concurrent burst; distinct by case",
+	Rule:  "histories on a fresh one-way client in direct mode against a harness-owned loopback peer: send (packs of 6 types, 30 B..2.5 MB so that frames exceed the 2 MiB write buffer in the thorough tier, with/without per-send license), burst (2-8 goroutines x 1-6 concurrent sends), peer faults: cut after n bytes of the next frame (mid-header, mid-payload), cut between frames, reset, listener down (k failed connects) / up; in a quarter of the histories the write timeout is 250-400 ms and 1-2 quiet periods longer than it are inserted (the connection stays healthy however old it is); oracle = every connection's stream is a concatenation of whole frames (a partial tail only where the peer cut), every frame equals the reference frame of exactly one send (pack's project code, hash of the license in force, exact length), none twice, per-sender order kept, every send that returned nil on a healthy connection is received, from the first reported error on the client recovers within three sends once the listener is up and the first nil send arrives on a new connection; non-trivial = a frame delivered after a fault, or a concurrent burst; distinct by case",
 	Quick: 60, Thorough: 2000,
-	Draw: func(t *rapid.T) Case { return Case{Actions: drawActions(t, pbt.Thorough())} },
-	Run:  run,
+	Draw: func(t *rapid.T) Case {
+		c := Case{Actions: drawActions(t, pbt.Thorough())}
+		if rapid.IntRange(0, 3).Draw(t, "withidle") == 0 {
+			// 1-2 quiet periods longer than the write timeout, small frames only (a short timeout must not be what a large frame runs into)
+			c.TimeoutMs = rapid.IntRange(250, 400).Draw(t, "timeout")
+			for i := range c.Actions {
+				if c.Actions[i].Size > 5000 {
+					c.Actions[i].Size = 5000
+				}
+			}
+			for k := rapid.IntRange(1, 2).Draw(t, "nidle"); k > 0; k-- {
+				at := rapid.IntRange(1, len(c.Actions)).Draw(t, "idleat")
+				idle := Action{K: "idle", Ms: c.TimeoutMs + rapid.IntRange(30, 150).Draw(t, "extra")}
+				c.Actions = append(c.Actions[:at], append([]Action{idle}, c.Actions[at:]...)...)
+			}
+		}
+		return c
+	},
+	Run: run,
 })
 
 func TestDirectMode(t *testing.T) {
@@ -572,6 +603,11 @@ func TestDirectMode(t *testing.T) {
 		{Actions: []Action{{K: "send", Seed: 1}, {K: "down"}, {K: "send", Seed: 2}, {K: "send", Seed: 3}, {K: "up"}, {K: "send", Seed: 4}, {K: "send", Seed: 5}, {K: "send", Seed: 6}}},
 		{Actions: []Action{{K: "burst", Seed: 9, G: 8, M: 6, Size: 5000}, {K: "send", Seed: 1, Override: true}, {K: "burst", Seed: 7, G: 4, M: 3, Override: true}}},
 		{Actions: []Action{{K: "send", Seed: 1, Size: 2500000}, {K: "send", Seed: 2}, {K: "send", Seed: 3, Size: 2200000, Override: true}}},
+		// the peer goes away in the middle of a frame that is larger than the client's 2 MiB write buffer
+		{Actions: []Action{{K: "send", Seed: 1}, {K: "cut", After: 65536}, {K: "send", Seed: 2, Size: 2500000}, {K: "send", Seed: 3}, {K: "send", Seed: 4}, {K: "send", Seed: 5}, {K: "send", Seed: 6}}},
+		{Actions: []Action{{K: "send", Seed: 1}, {K: "cut", After: 2200000}, {K: "send", Seed: 2, Size: 2500000}, {K: "send", Seed: 3, Size: 100}, {K: "send", Seed: 4}, {K: "send", Seed: 5}, {K: "send", Seed: 6}}},
+		// a healthy connection that is older than the write timeout
+		{TimeoutMs: 300, Actions: []Action{{K: "send", Seed: 1}, {K: "send", Seed: 2}, {K: "idle", Ms: 450}, {K: "send", Seed: 3}, {K: "send", Seed: 4}, {K: "send", Seed: 5}, {K: "idle", Ms: 350}, {K: "send", Seed: 6}, {K: "send", Seed: 7}}},
 	} {
 		specDirect.RunCase(t, c)
 	}
